@@ -19,11 +19,21 @@
                    `uuid.*`, `time.*`, `datetime.*`, `secrets.*`, `os.urandom/getpid`, `tempfile.*`,
                    `object.__hash__/__repr__`: [file, qualified function, callee]. Must be empty: names and
                    bytes of a built model may not depend on any of them.
+  * `converterFacts` — (name, holds?): `_adapt._initializers_to_constants(graph)` rewrites the graph it is given in
+                   place (`del graph.initializer[:]`, `del graph.node[:]`, `graph.node.extend`). That is pure only
+                   if every caller hands it a message nobody else holds:
+                     helper_called_only_on_converter_output   every call in `src/spox/_*.py` has the argument
+                         `<v>.graph` where `<v>` is assigned exactly once in the calling function, from
+                         `onnx.version_converter.convert_version(...)` (which returns a new ModelProto)
+                     helper_has_a_caller                       (so the fact above is not vacuous)
+                     helper_writes_only_its_parameter          every attribute write / mutator call in the helper
+                         is rooted at its parameter or at a local
 Anything unreadable degrades to an entry whose obligation fails.
 """
 import ast
 
 from .common import GEN, HEADER, REPO, dotted, lean_bool, lean_list, lean_str, write_if_changed
+from .writes import MUTATORS
 
 FILES = ["_traverse.py", "_build.py", "_graph.py", "_scope.py", "_public.py", "_node.py", "_internal_op.py",
          "_standard.py", "_inline.py", "_adapt.py", "_var.py", "_fields.py"]
@@ -153,9 +163,62 @@ def extract_intro_facts():
     return facts
 
 
+def extract_converter_facts():
+    facts = {"helper_called_only_on_converter_output": False, "helper_has_a_caller": False,
+             "helper_writes_only_its_parameter": False}
+    helper = "_initializers_to_constants"
+    try:
+        calls, good = 0, 0
+        for path in sorted((REPO / "src" / "spox").glob("_*.py")):
+            mod = ast.parse(path.read_text())
+            for fn in [n for n in ast.walk(mod) if isinstance(n, (ast.FunctionDef, ast.AsyncFunctionDef))]:
+                for c in [n for n in ast.walk(fn) if isinstance(n, ast.Call) and (dotted(n.func) or "").split(".")[-1] == helper]:
+                    calls += 1
+                    a = c.args[0] if len(c.args) == 1 and not c.keywords else None
+                    if not (isinstance(a, ast.Attribute) and a.attr == "graph" and isinstance(a.value, ast.Name)):
+                        continue
+                    v = a.value.id
+                    assigns = [n for n in ast.walk(fn) if isinstance(n, (ast.Assign, ast.AnnAssign, ast.AugAssign, ast.NamedExpr))
+                               and any(isinstance(t, ast.Name) and t.id == v for t in ast.walk(
+                                   n.targets[0] if isinstance(n, ast.Assign) else n.target))]
+                    params = {x.arg for x in fn.args.args + fn.args.kwonlyargs + fn.args.posonlyargs}
+                    if (len(assigns) == 1 and isinstance(assigns[0], ast.Assign) and len(assigns[0].targets) == 1
+                            and isinstance(assigns[0].targets[0], ast.Name) and isinstance(assigns[0].value, ast.Call)
+                            and dotted(assigns[0].value.func) == "onnx.version_converter.convert_version" and v not in params):
+                        good += 1
+            if path.name == "_adapt.py":
+                h = next((n for n in mod.body if isinstance(n, ast.FunctionDef) and n.name == helper), None)
+                if h is not None and len(h.args.args) == 1:
+                    prm = h.args.args[0].arg
+                    local = {n.id for n in ast.walk(h) if isinstance(n, ast.Name) and isinstance(n.ctx, ast.Store)}
+                    ok = True
+                    for n in ast.walk(h):
+                        tg = []
+                        if isinstance(n, (ast.Assign, ast.Delete)):
+                            tg = n.targets
+                        elif isinstance(n, (ast.AugAssign, ast.AnnAssign)):
+                            tg = [n.target]
+                        elif (isinstance(n, ast.Call) and isinstance(n.func, ast.Attribute) and n.func.attr in MUTATORS
+                              and isinstance(n.func.value, (ast.Attribute, ast.Subscript))):
+                            tg = [n.func.value]
+                        for t in tg:
+                            b = t
+                            while isinstance(b, (ast.Attribute, ast.Subscript)):
+                                b = b.value
+                            if isinstance(t, (ast.Attribute, ast.Subscript)) and not (isinstance(b, ast.Name) and (b.id == prm or b.id in local)):
+                                ok = False
+                    facts["helper_writes_only_its_parameter"] = ok
+        facts["helper_has_a_caller"] = calls > 0
+        facts["helper_called_only_on_converter_output"] = calls > 0 and good == calls
+    except Exception:  # noqa: BLE001
+        pass
+    return facts
+
+
 def generate() -> dict:
     rec = extract_recursive()
     facts = extract_intro_facts()
+    conv = extract_converter_facts()
     try:
         pdep = extract_process_dependent()
     except Exception as e:  # noqa: BLE001
@@ -167,12 +230,14 @@ def generate() -> dict:
             ["(" + lean_str(a) + ", " + lean_str(b) + ")" for a, b in rec]) + "\n",
         "def introFacts : List (String × Bool) := " + lean_list(
             ["(" + lean_str(k) + ", " + lean_bool(v) + ")" for k, v in facts.items()]) + "\n",
+        "def converterFacts : List (String × Bool) := " + lean_list(
+            ["(" + lean_str(k) + ", " + lean_bool(v) + ")" for k, v in conv.items()]) + "\n",
         "def processDependent : List (String × String × String) := " + lean_list(
             ["(" + ", ".join(lean_str(x) for x in r) + ")" for r in pdep]) + "\n",
         "end Generated.FrontFacts\n",
     ])
     write_if_changed(GEN / "FrontFacts.lean", text)
-    return {"recursive": rec, "intro_facts": facts, "process_dependent": pdep}
+    return {"recursive": rec, "intro_facts": facts, "process_dependent": pdep, "converter_facts": conv}
 
 
 if __name__ == "__main__":
